@@ -317,9 +317,13 @@ def op_summary_run(job):
         wd = tempfile.mkdtemp(prefix='sum.')
         try:
             pd.DataFrame(it['table'], columns=['FeatureA', 'FeatureB', 'Score']).to_csv(os.path.join(wd, 'pairwise_ranks.tsv'), sep='\t', index=False)
-            args = argparse.Namespace(output_folder=wd, label_column=it['label'], heuristic=it['heuristic'], interaction_order=it['order'], tldr=False)
+            # --tldr is a string option (default 'True'): the on-screen preview must not change what is written
+            args = argparse.Namespace(output_folder=wd, label_column=it['label'], heuristic=it['heuristic'], interaction_order=it['order'], tldr=it.get('tldr', False))
             try:
-                outrank_task_result_summary(args)
+                import contextlib
+                import io
+                with contextlib.redirect_stdout(io.StringIO()):
+                    outrank_task_result_summary(args)
             except Exception as e:  # noqa: BLE001
                 out.append({'error': repr(e)[:300]})
                 continue
